@@ -27,7 +27,7 @@ RULE = ("pool: hand-written near-collisions (same items in different containers,
         "non-trivial = the two hashes are equal or the values have the same type; distinct = distinct (mode, canonical pair)")
 TRUSTED = [
     "Section hypotheses H_tok (hasher outputs non-empty, free of , ; : | { }) and H_inj (hasher injective) stand for SHA-256 hexdigest being "
-    "collision-free; they are hypotheses of the theorems, not axioms",
+    "collision-free; they are hypotheses (explicit premises) of the theorems, not axioms; proved consistent by the instance unary_hash, not proved for the hex hasher of the correspondence check",
     "bytes are modelled for ASCII content only; floats are half-integers with positional repr",
     "cyclic / shared mutable containers, custom objects, numpy, Decimal, datetime, exclude/include paths are outside the model",
 ]
@@ -91,7 +91,7 @@ def canon_mode(v, o, seq=None):
 # known-finding matchers (narrow)
 # ---------------------------------------------------------------------------
 
-def _spelled(x, o):
+def _spelled(x, o, hex_=False):
     """the str that DeepHash cannot tell from the non-string x: x's pre-hash serialisation"""
     from deepdiff import DeepHash
     from deepdiff.deephash import sha256hex
@@ -99,7 +99,7 @@ def _spelled(x, o):
 
     def cap(s):
         seen.append(s)
-        return sha256hex(s)
+        return hexhasher(s) if hex_ else sha256hex(s)
     DeepHash(x, hasher=cap, **kw(o))
     s = seen[-1]
     return s[4:] if s.startswith("str:") else None
@@ -118,25 +118,25 @@ def _strings_in(v, out):
     return out
 
 
-def _respell(v, o, present):
+def _respell(v, o, present, hex_=False):
     """replace (bottom-up) every non-string sub-value whose serialisation is spelled by a str present in the pair by that str"""
     if isinstance(v, list):
-        w = [_respell(x, o, present) for x in v]
+        w = [_respell(x, o, present, hex_) for x in v]
     elif isinstance(v, tuple):
-        w = tuple(_respell(x, o, present) for x in v)
+        w = tuple(_respell(x, o, present, hex_) for x in v)
     elif isinstance(v, dict):
         w = {}
         for k, x in v.items():
-            k2 = _respell(k, o, present)
-            w[k2] = _respell(x, o, present)
+            k2 = _respell(k, o, present, hex_)
+            w[k2] = _respell(x, o, present, hex_)
     elif isinstance(v, (set, frozenset)):
-        w = type(v)(_respell(x, o, present) for x in v)
+        w = type(v)(_respell(x, o, present, hex_) for x in v)
     else:
         w = v
     if isinstance(w, (str, bytes)):
         return w
     try:
-        s = _spelled(w, o)
+        s = _spelled(w, o, hex_)
     except Exception:
         return w
     return s if s in present else w
@@ -171,10 +171,11 @@ def _k1(case):
     present = {s for s in _strings_in(a, set()) | _strings_in(b, set()) if s == "NONE" or ":" in s}
     if not present:
         return False
-    if canon_mode(_respell(a, o, present), o) == canon_mode(_respell(b, o, present), o):
+    hx = case.get("hasher") == "hex"
+    if canon_mode(_respell(a, o, present, hx), o) == canon_mode(_respell(b, o, present, hx), o):
         return True
     a, b = _collapse(a), _collapse(b)
-    return canon_mode(_respell(a, o, present), o) == canon_mode(_respell(b, o, present), o)
+    return canon_mode(_respell(a, o, present, hx), o) == canon_mode(_respell(b, o, present, hx), o)
 
 
 def _k4(case):
@@ -191,6 +192,9 @@ def _k4(case):
                 order.append(it)
             cnt[it] = cnt.get(it, 0) + 1
         return ["%s|%d" % (it, cnt[it]) for it in order]
+    if canon_mode(a, o, seq=table) == canon_mode(b, o, seq=table):
+        return True
+    a, b = _collapse(a), _collapse(b)      # together with the memo aliasing of K2
     return canon_mode(a, o, seq=table) == canon_mode(b, o, seq=table)
 
 
@@ -216,6 +220,8 @@ def near_collisions():
     h1 = DeepHash(1)[1]
     h2 = DeepHash(2)[2]
     hs = sorted([h1, h2])
+    x1 = hexhasher("str:int:1")
+    x2 = hexhasher("str:int:2")
     P = [
         # same items in different containers
         [1, 2], (1, 2), {1, 2}, frozenset({1, 2}), {1: 2}, {2: 1}, [[1, 2]], [(1, 2)], ([1, 2],), [{1, 2}], {1: None, 2: None},
@@ -229,7 +235,10 @@ def near_collisions():
         None, "NONE", 1, "int:1", True, "bool:true", False, "bool:false", 1.5, "float:1.5", "float:1.0", 1.0,
         [], "list:", (), "tuple:", set(), "set:", frozenset(), "frozenset:", {}, "dict:{}",
         [1], "list:" + h1, [1, 2], "list:" + ",".join(hs), (1,), "tuple:" + h1, {1}, "set:" + h1, [[1]],
-        {1: 2}, "dict:{%s:%s}" % (h1, h2), "str:a", "a", b"a", "bytes:a", "str:NONE", "str:int:1", ["NONE"], [None], {"NONE": 1}, {None: 1},
+        {1: 2}, "dict:{%s:%s}" % (h1, h2),
+        # the same spelled with the digests of the hex hasher of the correspondence run
+        "list:" + x1, "list:" + ",".join(sorted([x1, x2])), "tuple:" + x1, "set:" + x1, "dict:{%s:%s}" % (x1, x2),
+        "list:%s|1" % x1, "list:%s|2" % x1, "str:a", "a", b"a", "bytes:a", "str:NONE", "str:int:1", ["NONE"], [None], {"NONE": 1}, {None: 1},
         {"k": "int:1"}, {"k": 1}, ["int:1", 1], [1, "int:1"], ["int:1"], "int:2", 2, "int:01", "int:1.0", "float:1", "number:1", "none", "None",
         "", b"", [""], [b""], ":", "|", ",", ";", "{", "}", "1", "1.5", "True",
         # repeated items in different positions
@@ -251,7 +260,7 @@ def near_collisions():
 
 
 def spells_digest(v):
-    return any(len(s) > 40 for s in _strings_in(v, set()))
+    return any(len(s) > 20 for s in _strings_in(v, set()))
 
 
 def build_pool(rng, n_random, size):
@@ -336,6 +345,7 @@ def run(ctx):
         ctx.count("pool:alias" if values.contains_alias(v) else "pool:alias_free")
     # correspondence: exact strings on the pool, three modes
     base.corr_single(ctx, pool, MODES3, "c07_single", "exact_strings_pool")
+    base.corr_guards(ctx, pool, "c07")
     # correspondence: SHA-256 equality pattern == model pattern
     # (strings that spell a serialisation containing a SHA-256 digest collide under SHA-256 only: hasher-specific, left to the oracle)
     base.corr_pattern(ctx, [v for v in pool if not spells_digest(v)], MODES3, "c07_pattern")
